@@ -1,7 +1,8 @@
 From Coq Require Extraction ExtrOcamlBasic.
 From Coq Require Import NArith.
-From GV Require Import Common.Outcome C18.Model C18.InspModel.
+From GV Require Import Common.Outcome C18.Model C18.InspModel C18.TokModel.
 Extraction Language OCaml.
 (* N.succ only so that the shared glue (ocaml/common/conv.ml) finds the types positive / n *)
 (* trace_i with a verdict that accepts everything is trace of C18/Model.v (C18_run_i_is_run) *)
-Extraction "model.ml" trace_i init_i N.succ.
+(* trace_m: the manual-lexer flow (parser build ; token map build), C18/TokModel.v *)
+Extraction "model.ml" trace_i init_i trace_m init_m N.succ.
